@@ -164,3 +164,37 @@ Definition names_case (id : Z) (ns name : string) (o_ing o_ing_key o_vs o_vs_key
   let slashfree := negb (has_char "/"%char ns) && negb (has_char "/"%char name) in
   let spec := if slashfree then String.eqb o_ing o_ing_key && String.eqb o_vs o_vs_key && String.eqb o_ts o_ts_key else true in
   [id; b2z agree; b2z spec; b2z (negb (String.eqb ns "") || negb (String.eqb name "")); if slashfree then 1 else 2; 0; -1; -1].
+
+(* ---------- mgr family: LocalManager file methods, full listing of the root after every call ---------- *)
+
+Definition mtouched (o : mop) : string := match o with MWrite f n _ => mpath f n | MDel f n => mpath f n end.
+
+(* S on two consecutive observed listings, independent of the fold: the touched path now holds exactly
+   the written bytes (or is absent after a delete) and every other path is as before *)
+Definition mstep_ok (o : mop) (before after : list (string * string)) : bool :=
+  let p := mtouched o in
+  (match o with
+   | MWrite _ _ c => match lookup_l p after with Some c' => String.eqb c c' | None => false end
+   | MDel _ _ => match lookup_l p after with Some _ => false | None => true end
+   end) &&
+  nodupb (map fst after) &&
+  forallb (fun e => String.eqb (fst e) p || pair_mem String.eqb e after) before &&
+  forallb (fun e => String.eqb (fst e) p || pair_mem String.eqb e before) after.
+
+Record macc := { m_m : smap string; m_prev : list (string * string); m_k : Z; m_agree : bool; m_spec : bool;
+                 m_first_spec : Z; m_first_agree : Z }.
+
+Definition mgr_step (a : macc) (oo : mop * list (string * string)) : macc :=
+  let o := fst oo in let obs := snd oo in
+  let m' := mstep o (m_m a) in
+  let ag := list_eqb (pair_eqb String.eqb String.eqb) m' obs in
+  let sp := mstep_ok o (m_prev a) obs in
+  {| m_m := m'; m_prev := obs; m_k := m_k a + 1; m_agree := m_agree a && ag; m_spec := m_spec a && sp;
+     m_first_spec := if negb sp && (m_first_spec a <? 0) then m_k a else m_first_spec a;
+     m_first_agree := if negb ag && (m_first_agree a <? 0) then m_k a else m_first_agree a |}.
+
+Definition mgr_case (id : Z) (ops : list mop) (obs : list (list (string * string))) : list Z :=
+  let a0 := {| m_m := []; m_prev := []; m_k := 0; m_agree := Nat.eqb (List.length ops) (List.length obs);
+               m_spec := true; m_first_spec := -1; m_first_agree := -1 |} in
+  let a := fold_left mgr_step (combine ops obs) a0 in
+  [id; b2z (m_agree a); b2z (m_spec a); b2z (negb (Nat.eqb (List.length ops) 0)); 3; 0; m_first_spec a; m_first_agree a].
